@@ -102,6 +102,8 @@ func runCase(c map[string]any) (map[string]any, error) {
 		return ev, runRt(c, ev)
 	case "upd":
 		return ev, runUpd(c, ev)
+	case "multi":
+		return ev, runMulti(c, ev)
 	}
 	return nil, fmt.Errorf("unknown op %q", op)
 }
